@@ -131,6 +131,7 @@ class PuritySim:
         self.step = 0
         self.node_counter = 0
         self.derived_from = {}
+        self.quiescent = set()
         self.cache_fp = {}
         self.sub_content = {}
         self.fresh_fills = []
@@ -191,6 +192,19 @@ class PuritySim:
             return False
         _seen.add(nid)
         return any(self.is_tainted(d, _seen) for d in self.world.passed.get(nid, []))
+
+    def is_quiescent(self, nid, _seen=None):
+        """A node whose arrays were harvested BY REFERENCE into a Preloads object (through {"$attr": ...} slots or through
+        Preloads.set_*), or anything built on it.  Preloads aliases its source's arrays by design of that API and a later read
+        of the source may write into them (single-regularization fast path): the statement does not list Preloads among the
+        derivations it protects (DESIGN 4.1 / 5.5), so the source is left alone after harvesting, exactly as in system `preloads`."""
+        if nid in self.quiescent:
+            return True
+        _seen = _seen or set()
+        if nid in _seen:
+            return False
+        _seen.add(nid)
+        return any(self.is_quiescent(d, _seen) for d in self.world.passed.get(nid, []))
 
     def nodes_by_type(self):
         out = {}
@@ -281,6 +295,12 @@ class PuritySim:
             return False
         obj = self.world.env[nid]
         self.content0[nid] = content_tree(obj)
+        if spec["kind"] == "preloads":
+            for v in spec.get("kw", {}).values():
+                if isinstance(v, dict) and "$attr" in v:
+                    src = v["$attr"][0]
+                    if type(self.world.env.get(src)).__name__.startswith("Inversion"):
+                        self.quiescent.add(src)
         if spec["kind"] == "derive":
             self.derived_from[nid] = spec["src"]["$node"]
         self.log.append(ev="node", id=nid, kind=spec["kind"], type=type(obj).__name__, outcome="built")
@@ -306,11 +326,14 @@ class PuritySim:
                 # hand-rolled lazy cache (tracked from then on), one that disappears is a reset - neither is a reported value changing
                 keys = sorted(k for k in set(now) & set(base) if now.get(k) != base.get(k))
                 self.content0[nid] = now
+                if what.startswith("read:Preloads."):
+                    # Preloads.set_* fills the Preloads' own slots by design; objects that merely HOLD that Preloads show it
+                    keys = [k for k in keys if type(getattr(obj, k, None)).__name__ != "Preloads"]
                 if not keys:
                     continue
                 tn = type(obj).__name__
-                if tn == "Preloads":
-                    continue  # Preloads.set_* fills its own slots by design; the slots are not reported quantities (DESIGN 4.1)
+                if tn == "Preloads" and what.startswith("read:Preloads."):
+                    continue  # Preloads.set_* fills the object's own slots by design; an inversion that merely USES it must not change it
                 self.stats["checked"] += 1
                 self.report("object_mutated", tn, keys[0], {"during": what, "attributes": keys}, "contents unchanged", "changed: " + ",".join(keys))
         # I7: a populated cache entry IS what its quantity will report next; its bytes must not change while it stays
@@ -428,6 +451,8 @@ class PuritySim:
         for d in self.world.deps(spec):
             if d not in self.world.env:
                 return False
+            if self.is_quiescent(d) and spec["kind"] in ("mapper_valued", "preloads", "derive"):
+                return False  # these constructions read quantities of their source
         src_pop = None
         if spec["kind"] == "derive":
             src = self.world.env[spec["src"]["$node"]]
@@ -446,9 +471,17 @@ class PuritySim:
         for a in catalog.q_nodes(q):
             if a not in self.world.env:
                 return False
+        if self.is_quiescent(target) or any(self.is_quiescent(a) for a in catalog.q_nodes(q) if not (type(self.world.env[target]).__name__ == "Preloads")):
+            return False
         obj = self.world.env[target]
         tn = type(obj).__name__
         label = catalog.q_label(q)
+        if tn == "Preloads" and q["t"] == "call":
+            for a in catalog.q_nodes(q):
+                self.quiescent.add(a)
+                for d in self.world.passed.get(a, []):
+                    if type(self.world.env.get(d)).__name__.startswith("Inversion"):
+                        self.quiescent.add(d)
         shim = None
         if self.armed_solver is not None:
             shim = seams.SolverShim(self.armed_solver)
@@ -576,7 +609,19 @@ class PuritySim:
             near += [n for n in ids if anchor in self.world.passed.get(n, [])]
             rs.shuffle(near)
             clients.append({"name": f"{role[0]}{c}", "role": role, "nodes": list(dict.fromkeys(near))[: rs.randrange(1, 4)], "queue": []})
-        n_ops = k["n_ops"]
+        # one client in two runs is a SWEEPER: it reads every cached quantity of one graph node once, in a seeded order, so that
+        # rarely chosen quantities (data_subtracted_dict, reconstruction_noise_map ...) are exercised in a fixed fraction of runs
+        graph_nodes = [n for n in ids if self.world.passed.get(n)]
+        n_sweep = 0
+        if graph_nodes and rs.random() < 0.5:
+            t = rs.choice(graph_nodes)
+            names = [n for n in catalog.cached_names(type(self.world.env[t])) if not n.startswith("_")]
+            rs.shuffle(names)
+            sweeper = rs.choice(clients)
+            sweeper["queue"] = [{"op": "read", "client": sweeper["name"], "target": t, "q": {"t": "prop", "name": nm}} for nm in names] + sweeper["queue"]
+            n_sweep = len(names)
+            self.probe("sweeper_client")
+        n_ops = k["n_ops"] + n_sweep
         idle = 0
         while len(self.schedule) < n_ops and idle < 200:
             u = rf.random()
@@ -849,6 +894,6 @@ ASSUMPTIONS = [
     "sampling, not enumeration: a clean batch is evidence, not proof",
 ]
 TIERS = {
-    "quick": {"batches": [("nofault", 1500), ("fault", 900)], "wall_cap": 100.0},
+    "quick": {"batches": [("nofault", 2400), ("fault", 1400)], "wall_cap": 100.0},
     "thorough": {"batches": [("nofault", 60000), ("fault", 30000)], "wall_cap": 1200.0, "selftest_seeds": 40},
 }
